@@ -190,7 +190,9 @@ fn main() {
         let mut span_meta: HashMap<usize, &'static Metadata<'static>> = HashMap::new();
         let mut outs: Vec<String> = Vec::new();
         let dd = d.clone();
-        tracing::dispatch::with_default(&dd, || {
+        // `U1`: the whole history runs on a spawned thread WITHOUT a name (the serving thread is `main`)
+        let unnamed = toks[..s1].contains(&"U1");
+        let mut body = || tracing::dispatch::with_default(&dd, || {
             for op in toks[s2 + 1..].split(|t| *t == ";") {
                 if op.is_empty() { continue; }
                 match op[0] {
@@ -257,6 +259,7 @@ fn main() {
                 outs.push(take(&log));
             }
         });
+        if unnamed { std::thread::scope(|sc| { sc.spawn(body).join().unwrap(); }); } else { body(); }
         drop(dd);
         outs.join(" ")
     });
